@@ -82,7 +82,7 @@ Inductive enc_case :=
 (* Codec.ProtoToJSON then Codec.JSONToProto into a fresh message (default codec).
    pf / pt: strconv.ParseFloat and time.Parse results for the literals of [out];
    back: the decoded message (None: the decoder returned an error) *)
-| CRound (e : env) (root : bytes) (m : msg)
+| CRound (e : env) (static : bool) (root : bytes) (m : msg)
          (floats : list (bool * N * bytes)) (inner : list (bytes * bytes * option bytes))
          (pf : list (bytes * (option N * option N))) (pt : list (bytes * (Z * Z)))
          (strict : bool) (out : bytes) (back : option msg) (xcheck : bool).
@@ -178,8 +178,10 @@ Definition enc_check (c : enc_case) : bool :=
   | CDateParse s r => option_eqb zzz_eqb (date_from_string s) r
   | CValid s valid => Bool.eqb (is_some (strict_parse s)) valid
   | CDecimal s r => opt_bytes_eqb (dec_normalise s) r
-  | CRound e root m floats inner pf pt strict out back xcheck =>
-      env_static_ok e &&
+  | CRound e static root m floats inner pf pt strict out back xcheck =>
+      (* the harness states whether the environment is inside the theorem's static hypotheses
+         (it knows one shape that is not); the decider must agree *)
+      Bool.eqb (env_static_ok e) static &&
       match encode (float_table floats) (inner_table inner) e root m with
       | Ok b =>
           (if strict then bytes_eqb b out
